@@ -19,9 +19,11 @@ import (
 	"io"
 	"log"
 	"math/rand"
+	"os"
 	"sort"
 	"strings"
 	"sync"
+	"syscall"
 	"testing"
 	"testing/synctest"
 	"time"
@@ -304,6 +306,31 @@ func (w *c33World) Value(s *c33Seg, r c33Rec) []byte {
 		return w.caps.EncodeLFS("lfs|"+id, []byte("blob|"+id))
 	}
 	return []byte("v|" + id)
+}
+
+// ValueBytes is the number of bytes AppendValue needs for all non-LFS records of s.
+func (w *c33World) ValueBytes(s *c33Seg) int {
+	n := 0
+	for _, r := range s.Recs {
+		if !(r.LFS && w.caps.EncodeLFS != nil) {
+			n += 2 + len(w.recID(s.Topic, s.Part, r.Off))
+		}
+	}
+	return n
+}
+
+// AppendValue appends the value of a record to arena and returns the grown arena and the value
+// (capacity-limited sub-slice). The decoder fakes carve all values of one Decode call out of one
+// fresh allocation: a fresh slice per call like the real decoder, without one allocation per record
+// (segments have up to 5000 records). LFS envelopes are allocated separately.
+func (w *c33World) AppendValue(arena []byte, s *c33Seg, r c33Rec) ([]byte, []byte) {
+	if r.LFS && w.caps.EncodeLFS != nil {
+		return arena, w.Value(s, r)
+	}
+	start := len(arena)
+	arena = append(arena, 'v', '|')
+	arena = append(arena, w.recID(s.Topic, s.Part, r.Off)...)
+	return arena, arena[start:len(arena):len(arena)]
 }
 
 // ---- lister
@@ -595,43 +622,45 @@ func (w *c33World) Fetch(key string) ([]byte, error) {
 const c33LargeMark = 900
 
 // c33OffsStr renders the offsets of a batch; long batches are abbreviated.
-func c33OffsStr(recs []c33Out) string {
-	if len(recs) <= 12 {
-		offs := make([]string, 0, len(recs))
-		for _, r := range recs {
-			offs = append(offs, fmt.Sprint(r.Off))
+func c33OffsStr(n int, at func(i int) c33Out) string {
+	if n <= 12 {
+		offs := make([]string, 0, n)
+		for i := 0; i < n; i++ {
+			offs = append(offs, fmt.Sprint(at(i).Off))
 		}
 		return strings.Join(offs, " ")
 	}
 	contiguous := true
-	for i := 1; i < len(recs); i++ {
-		if recs[i].Off != recs[i-1].Off+1 {
+	for i := 1; i < n; i++ {
+		if at(i).Off != at(i-1).Off+1 {
 			contiguous = false
 			break
 		}
 	}
-	return fmt.Sprintf("%d..%d n=%d contiguous=%v", recs[0].Off, recs[len(recs)-1].Off, len(recs), contiguous)
+	return fmt.Sprintf("%d..%d n=%d contiguous=%v", at(0).Off, at(n-1).Off, n, contiguous)
 }
 
 // SinkWrite is the sink. A call either accepts all its records, or fails having accepted
 // nothing (faults sink, sink_call), or fails having accepted a proper prefix (sink_partial).
-// Only accepted records count as written.
-func (w *c33World) SinkWrite(recs []c33Out) error {
+// Only accepted records count as written. The batch is n records read through at(i) during the
+// call (nothing is retained, so the adapters need not copy a 5000-record batch).
+func (w *c33World) SinkWrite(n int, at func(i int) c33Out) error {
 	w.mu.Lock()
 	defer w.mu.Unlock()
-	if len(recs) == 0 {
+	if n == 0 {
 		return nil
 	}
 	call := w.calls["sink"]
 	w.calls["sink"]++
-	seg, known := w.segOf[c33RK{c33PK{recs[0].Topic, recs[0].Part}, recs[0].Off}]
+	r0 := at(0)
+	seg, known := w.segOf[c33RK{c33PK{r0.Topic, r0.Part}, r0.Off}]
 	if !known {
 		seg = -1
 	}
-	if len(recs) > c33LargeMark {
+	if n > c33LargeMark {
 		w.nLargeWrites++
 	}
-	accept := len(recs)
+	accept := n
 	fault := ""
 	if w.fire("sink", seg) {
 		fault, accept = "sink", 0
@@ -639,8 +668,8 @@ func (w *c33World) SinkWrite(recs []c33Out) error {
 		fault, accept = "sink_call", 0
 	} else if i := w.fireIdx("sink_partial", call); i >= 0 {
 		fault, accept = "sink_partial", w.c.Faults[i].Keep
-		if accept > len(recs)-1 {
-			accept = len(recs) - 1
+		if accept > n-1 {
+			accept = n - 1
 		}
 		if accept < 0 {
 			accept = 0
@@ -659,7 +688,8 @@ func (w *c33World) SinkWrite(recs []c33Out) error {
 			w.nSinkLaterFail++
 		}
 	}
-	for _, r := range recs[:accept] {
+	for i := 0; i < accept; i++ {
+		r := at(i)
 		rk := c33RK{c33PK{r.Topic, r.Part}, r.Off}
 		if _, ok := w.segOf[rk]; !ok {
 			w.nForeign++
@@ -675,12 +705,12 @@ func (w *c33World) SinkWrite(recs []c33Out) error {
 		w.nRecsAccepted++
 	}
 	if fault != "" {
-		w.logf("sink write call#%d seg%d FAULT %s (%d records [%s], first %d accepted)", call, seg, fault, len(recs), c33OffsStr(recs), accept)
+		w.logf("sink write call#%d seg%d FAULT %s (%d records [%s], first %d accepted)", call, seg, fault, n, c33OffsStr(n, at), accept)
 		return errors.New("c33: transient sink failure")
 	}
 	w.cycSinkOK[seg]++
 	w.nSinkOK++
-	w.logf("sink write call#%d seg%d ok %s/%d [%s]", call, seg, recs[0].Topic, recs[0].Part, c33OffsStr(recs))
+	w.logf("sink write call#%d seg%d ok %s/%d [%s]", call, seg, r0.Topic, r0.Part, c33OffsStr(n, at))
 	return nil
 }
 
@@ -1113,24 +1143,29 @@ func c33Runs(base int64, gapAt int, sizes ...int) []c33Seg {
 // c33LargeLayouts: several completed segments of one partition per polling cycle, at least one of
 // them far larger than the handful of records of c33Layouts (sizes around and well above plausible
 // internal batch sizes of a processor or sink: 999/1000/1001, 2000/2001, 4096/4097, 5000).
+//
+// The first c33LargeQuick layouts get the full schedule list in the quick tier, the others
+// (the heaviest ones) a short one; the thorough tier runs the full list on all of them.
 func c33LargeLayouts() []c33Layout {
 	ls := []c33Layout{
 		{"L-1001+3", c33Runs(0, 0, 1001, 3)},
 		{"L-2500+10+10", c33Runs(0, 0, 2500, 10, 10)},
 		{"L-999+1000+1001", c33Runs(0, 0, 999, 1000, 1001)},
 		{"L-2001+2000", c33Runs(0, 0, 2001, 2000)},
-		{"L-4096+1+4097", c33Runs(0, 0, 4096, 1, 4097)},
-		{"L-5000+2", c33Runs(0, 0, 5000, 2)},
 		{"L-3+1500+2", c33Runs(0, 0, 3, 1500, 2)},
 		{"L-from7-1000+1001+1", c33Runs(7, 0, 1000, 1001, 1)},
 		{"L-2000-gap-1200+1", c33Runs(0, 1, 2000, 1200, 1)},
 		{"L-1+1+3000+1", c33Runs(0, 0, 1, 1, 3000, 1)},
+		{"L-4096+1+4097", c33Runs(0, 0, 4096, 1, 4097)},
+		{"L-5000+2", c33Runs(0, 0, 5000, 2)},
 	}
 	for i := range ls {
 		c33SortSegs(ls[i].Segs)
 	}
 	return ls
 }
+
+const c33LargeQuick = 6
 
 type c33LargeVariant struct {
 	Case c33Case
@@ -1169,10 +1204,16 @@ func c33LargeVariants(li int, l c33Layout, caps c33Caps) []c33LargeVariant {
 }
 
 // c33LargeSchedules: the fault schedules a large layout is run with (besides "no fault").
-func c33LargeSchedules(v c33LargeVariant, thorough bool) [][]c33Fault {
+func c33LargeSchedules(v c33LargeVariant, thorough, short bool) [][]c33Fault {
 	sc := func(cy, k int) c33Fault { return c33Fault{Comp: "sink_call", Cycle: cy, Nth: k} }
 	sp := func(cy, k, keep int) c33Fault { return c33Fault{Comp: "sink_partial", Cycle: cy, Nth: k, Keep: keep} }
 	var out [][]c33Fault
+	if short {
+		if v.Kind == "persistent" {
+			out = append(out, []c33Fault{sc(1, 1)}, []c33Fault{sc(1, 2)}, []c33Fault{sp(1, 0, 1000)}, []c33Fault{sp(1, 1, 2000)})
+		}
+		return out
+	}
 	if v.Kind == "default" {
 		// the modules' own store holds no checkpoint: every cycle rewrites everything
 		out = append(out, []c33Fault{sc(1, 1)}, []c33Fault{sc(2, 1)}, []c33Fault{sp(1, 0, 1000)})
@@ -1181,7 +1222,7 @@ func c33LargeSchedules(v c33LargeVariant, thorough bool) [][]c33Fault {
 		}
 		return out
 	}
-	calls, cycles, keeps := 5, 1, []int(nil)
+	calls, cycles, keeps := 4, 1, []int(nil)
 	if thorough {
 		calls, cycles, keeps = 8, 3, []int{1, 500, 999, 1000, 1001, 2000}
 	}
@@ -1203,10 +1244,10 @@ func c33LargeSchedules(v c33LargeVariant, thorough bool) [][]c33Fault {
 	lost := func(seg int) c33Fault { return c33Fault{Comp: "commit_lost", Cycle: 1, Nth: seg} }
 	ackLost := func(seg int) c33Fault { return c33Fault{Comp: "commit_ack_lost", Cycle: 1, Nth: seg} }
 	out = append(out,
-		[]c33Fault{sc(1, 1), sc(2, 0)}, []c33Fault{sc(1, 1), sc(2, 1)}, []c33Fault{sc(1, 2), sc(2, 1)}, []c33Fault{sp(1, 0, 1000), sc(2, 0)},
-		[]c33Fault{sc(1, 1), lost(0)}, []c33Fault{sc(1, 1), ackLost(0)}, []c33Fault{sc(1, 2), lost(0)}, []c33Fault{sp(1, 0, 1000), lost(0)},
-		[]c33Fault{sc(1, 1), lost(1)}, []c33Fault{sc(1, 2), ackLost(1)})
+		[]c33Fault{sc(1, 1), sc(2, 0)}, []c33Fault{sc(1, 1), sc(2, 1)}, []c33Fault{sp(1, 0, 1000), sc(2, 0)},
+		[]c33Fault{sc(1, 1), lost(0)}, []c33Fault{sc(1, 1), ackLost(0)}, []c33Fault{sc(1, 2), lost(1)})
 	if thorough {
+		out = append(out, []c33Fault{sc(1, 2), sc(2, 1)}, []c33Fault{sc(1, 2), lost(0)}, []c33Fault{sp(1, 0, 1000), lost(0)}, []c33Fault{sc(1, 2), ackLost(1)})
 		u := c33UniverseX(2, 3, []int{1000})
 		for i := range u {
 			for j := i + 1; j < len(u); j++ {
@@ -1332,6 +1373,34 @@ var c33Assumptions = []string{
 
 type c33Totals struct {
 	cases, nontrivial int
+}
+
+// c33TuneRaceRuntime re-executes the test binary once (same pid, same arguments) with the race
+// runtime option clear_shadow_mmap_threshold raised from 64 KiB to 64 MiB, every other GORACE
+// option (log_path, halt_on_error) kept. Speed only: by default the race runtime clears the shadow
+// of every allocation above 64 KiB by re-mapping it, and each 100-500 KB record slice of a large
+// segment then pays a burst of page faults (20-50 ms per slice on a loaded box with transparent
+// huge pages, against < 1 ms with memset). Call it first in the test function. Does nothing
+// without the race detector's environment contract (GORACE is merely ignored then).
+func c33TuneRaceRuntime() {
+	const opt = "clear_shadow_mmap_threshold"
+	cur := os.Getenv("GORACE")
+	if strings.Contains(cur, opt) || os.Getenv("C33_NO_REEXEC") != "" {
+		return
+	}
+	for _, a := range os.Args {
+		if strings.Contains(a, "profile") || strings.Contains(a, "test.trace") {
+			return // a profiling timer armed by the testing package would kill the new image
+		}
+	}
+	exe, err := os.Executable()
+	if err != nil {
+		return
+	}
+	os.Setenv("GORACE", strings.TrimSpace(cur+" "+opt+"=67108864"))
+	os.Setenv("C33_NO_REEXEC", "1") // never loop, whatever happens to GORACE
+	_ = syscall.Exec(exe, os.Args, os.Environ())
+	os.Setenv("GORACE", cur) // exec failed: carry on in this process, just slower
 }
 
 // c33Main generates the tier's case list, runs it and reports.
@@ -1489,9 +1558,13 @@ func c33Main(t *testing.T, r c33Reporter, caps c33Caps, build c33Build, replay m
 	// the k-th Write call of a cycle / after a prefix was accepted, alone and paired with a second
 	// failure on the retry or with a failing commit
 	for li, l := range c33LargeLayouts() {
+		short := !thorough && li >= c33LargeQuick
 		for _, v := range c33LargeVariants(li, l, caps) {
+			if short && v.Kind != "persistent" {
+				continue
+			}
 			runOne(v.Case, "large_nofault")
-			for _, fs := range c33LargeSchedules(v, thorough) {
+			for _, fs := range c33LargeSchedules(v, thorough, short) {
 				c := v.Case
 				c.Faults = append([]c33Fault(nil), fs...)
 				sort.Slice(c.Faults, func(i, j int) bool { return c.Faults[i].String() < c.Faults[j].String() })
